@@ -1,3 +1,4 @@
+CONSTANT Full = TRUE
 INIT Init
 NEXT Next
 INVARIANT Law1
